@@ -45,7 +45,8 @@ def execute_region(c):
         (l, b, r, t), res0 = REGION[c["pair"]]
         mx, my = (l + r) / 2, (b + t) / 2
         pts = {"diamond": [(mx, b), (r, my), (mx, t), (l, my)], "triangle": [(l, b), (r, b + (t - b) / 4), (mx, t)], "line": [(l, my), (mx, t), (r, b)],
-               "box": [(l, b), (r, b), (r, t), (l, t)], "multipoint": [(l, my), (mx, b), (r, t)]}[c["geo"]]
+               "box": [(l, b), (r, b), (r, t), (l, t)], "multipoint": [(l, my), (mx, b), (r, t)],
+               "bowtie": [(l, b), (r, t), (r, b), (l, t)]}[c["geo"]]     # a ring that crosses itself (digitised in the wrong vertex order): still a region with an extent
         shp = {"line": sg.LineString, "multipoint": sg.MultiPoint}.get(c["geo"], sg.Polygon)(pts)
         res = res0 * c["resk"]
         anchor = {"edge": "edge", "center": "center", "floating": "floating"}[c["anchor"]]
